@@ -3619,4 +3619,451 @@ theorem arffAttrs_written (isDense : Bool) (q : Nat) (hq : q = SQ ∨ q = DQ) (a
           exact hnd.1 (by rw [← e]; exact List.mem_map_of_mem hb))]
 
 
+
+/-! ## D.3 whole ARFF files -/
+
+
+def toF (s : ALR) : ALRF := ⟨s.started, false, s.qc, s.delim, none⟩
+
+theorem arffSimple_full (n : Nat) (s : ALR) (line : Text) (s' : ALR) (r : List Text)
+    (h : arffSimple n s line = .ok (s', r)) : arffSimpleF n (toF s) line = .ok (toF s', r) := by
+  unfold arffSimple at h
+  unfold arffSimpleF
+  simp only [toF]
+  cases hq : simpleQuote s.qc line with
+  | none => rw [hq] at h; cases h
+  | some qc1 =>
+    rw [hq] at h
+    simp only at h ⊢
+    cases hc : csvFirst (arffDialect s.delim qc1) line with
+    | error e => rw [hc] at h; cases h
+    | ok rr =>
+      rw [hc] at h
+      simp only at h ⊢
+      by_cases hl : rr.length = n
+      · simp only [hl, if_true] at h ⊢
+        cases h
+        rfl
+      · simp [hl] at h
+
+theorem arffLineStep_full (n : Nat) (s : ALR) (line : Text) (s' : ALR) (r : List Text)
+    (h : arffLineStep n s line = .ok (s', r)) : arffLineStepF n (toF s) line = .ok (toF s', r) := by
+  obtain ⟨st, adv, qc0, dl⟩ := s
+  unfold arffLineStep at h
+  unfold arffLineStepF
+  simp only [toF, Bool.false_eq_true, if_false] at h ⊢
+  cases st with
+  | true =>
+    simp only [if_true] at h ⊢
+    exact arffSimple_full n ⟨true, adv, qc0, dl⟩ line s' r h
+  | false =>
+    simp only [Bool.false_eq_true, if_false] at h ⊢
+    unfold arffFirst at h
+    unfold arffFirstF
+    by_cases hb : (line.contains DQ && line.contains SQ) = true
+    · simp only [hb, if_true] at h; cases h
+    · simp only [hb, Bool.false_eq_true, if_false] at h ⊢
+      cases hc : csvFirst (arffDialect COMMA (if line.contains DQ = true then some DQ else if line.contains SQ = true then some SQ else none)) line with
+      | error e => rw [hc] at h; cases h
+      | ok rr =>
+        rw [hc] at h
+        simp only at h ⊢
+        by_cases hl : rr.length = n
+        · simp only [hl, if_true] at h ⊢
+          exact arffSimple_full n ⟨true, false, _, COMMA⟩ line s' r h
+        · simp only [hl, if_false] at h ⊢
+          cases hc2 : csvFirst (arffDialect TAB (if line.contains DQ = true then some DQ else if line.contains SQ = true then some SQ else none)) line with
+          | error e => rw [hc2] at h; cases h
+          | ok r2 =>
+            rw [hc2] at h
+            simp only at h ⊢
+            by_cases hl2 : r2.length = n
+            · simp only [hl2, if_true] at h ⊢
+              exact arffSimple_full n ⟨true, false, _, TAB⟩ line s' r h
+            · simp only [hl2, if_false] at h; cases h
+
+
+
+
+
+theorem denseRows_of_arffLines (encs : List Enc) (n : Nat) (items : List (Text × List Text × List Cell)) (s : ALR)
+    (h : arffLines n s (items.map (·.1)) = .ok (items.map (·.2.1)))
+    (hpct : ∀ it ∈ items, it.1.head? ≠ some PCT)
+    (henc : ∀ it ∈ items, encodeRow encs it.2.1 = .ok it.2.2) :
+    denseRows encs n (toF s) (items.map (·.1)) = .ok (items.map fun it => ⟨it.2.2, denseMissing it.1⟩) := by
+  induction items generalizing s with
+  | nil => rfl
+  | cons it items ih =>
+    simp only [List.map_cons, arffLines] at h
+    cases hstep : arffLineStep n s it.1 with
+    | error e => rw [hstep] at h; cases h
+    | ok p =>
+      obtain ⟨s1, r⟩ := p
+      rw [hstep] at h
+      simp only at h
+      cases hrest : arffLines n s1 (items.map (·.1)) with
+      | error e => rw [hrest] at h; cases h
+      | ok rs =>
+        rw [hrest] at h
+        simp only [Except.ok.injEq, List.cons.injEq] at h
+        obtain ⟨hr, hrs⟩ := h
+        subst hr
+        have hfull := arffLineStep_full n s it.1 s1 it.2.1 hstep
+        simp only [List.map_cons, denseRows, hpct it (by simp), if_false, hfull, henc it (by simp)]
+        rw [ih s1 (by rw [hrest, hrs]) (fun x hx => hpct x (by simp [hx])) (fun x hx => henc x (by simp [hx]))]
+
+theorem isFloatLit_qm : isFloatLit [QM] = false := by decide
+
+theorem encodeCell_written (e : Enc) (x : Bool × CellW) (h : cellWOk e x = true) :
+    encodeCell e x.2.text = .ok (x.2.out e) := by
+  obtain ⟨b, c⟩ := x
+  have mem_of {lv : List Text} {s : Text} (h : lv.contains s = true) : s ∈ lv := by simpa using h
+  have nmem_of {lv : List Text} {s : Text} (h : lv.contains s = false) : ¬ s ∈ lv := by
+    intro hm; have : lv.contains s = true := by simpa using hm
+    rw [h] at this; cases this
+  cases e with
+  | numeric =>
+    cases c with
+    | missing => simp [encodeCell, CellW.text, CellW.out, isFloatLit_qm]
+    | num t => simp only [cellWOk, Bool.and_eq_true] at h; simp [encodeCell, CellW.text, CellW.out, h.1]
+    | str s => simp [cellWOk] at h
+    | cat s => simp [cellWOk] at h
+  | str =>
+    cases c with
+    | missing => simp [encodeCell, CellW.text, CellW.out]
+    | num t => simp [cellWOk] at h
+    | str s =>
+      simp only [cellWOk, Bool.not_eq_true'] at h
+      have hne : ¬ (s = [QM]) := by intro e; rw [e] at h; revert h; decide
+      simp [encodeCell, CellW.text, CellW.out, hne]
+    | cat s => simp [cellWOk] at h
+  | nominal lv =>
+    cases c with
+    | missing =>
+      simp only [cellWOk, Bool.and_eq_true, Bool.not_eq_true'] at h
+      simp [encodeCell, CellW.text, CellW.out, nmem_of h.2]
+    | num t => simp [cellWOk] at h
+    | str s => simp [cellWOk] at h
+    | cat s =>
+      simp only [cellWOk, Bool.and_eq_true, Bool.not_eq_true'] at h
+      simp [encodeCell, CellW.text, CellW.out, mem_of h.1]
+
+theorem encodeRow_written (encs : List Enc) (row : List (Bool × CellW)) (h : rowCellsOk encs row = true) :
+    encodeRow encs (row.map (·.2.text)) = .ok (rowOut encs row) := by
+  induction encs generalizing row with
+  | nil =>
+    cases row with
+    | nil => rfl
+    | cons x xs => simp [rowCellsOk] at h
+  | cons e es ih =>
+    cases row with
+    | nil => simp [rowCellsOk] at h
+    | cons x xs =>
+      simp only [rowCellsOk, Bool.and_eq_true] at h
+      simp only [List.map_cons, encodeRow, encodeCell_written e x h.1, ih xs h.2, rowOut]
+
+
+
+
+
+theorem rowCellsOk_mem (encs : List Enc) (row : List (Bool × CellW)) (h : rowCellsOk encs row = true) :
+    ∀ x ∈ row, ∃ e, cellWOk e x = true := by
+  induction encs generalizing row with
+  | nil => cases row with
+    | nil => simp
+    | cons x xs => simp [rowCellsOk] at h
+  | cons e es ih =>
+    cases row with
+    | nil => simp
+    | cons x xs =>
+      simp only [rowCellsOk, Bool.and_eq_true] at h
+      intro y hy
+      simp only [List.mem_cons] at hy
+      rcases hy with rfl | hy
+      · exact ⟨e, h.1⟩
+      · exact ih xs h.2 y hy
+
+theorem cellWOk_facts (e : Enc) (x : Bool × CellW) (h : cellWOk e x = true) :
+    (x.2.isMissing = true → denseTok x = (false, [QM])) ∧ (x.2.isMissing = false → x.2.text.contains QM = false) := by
+  obtain ⟨b, c⟩ := x
+  cases e <;> cases c <;> simp [cellWOk, CellW.isMissing, CellW.text, denseTok] at h ⊢ <;> first | exact h | exact h.1 | exact h.2 | skip
+  all_goals (first | exact h.2 | exact h.1 | exact h)
+
+theorem compact_cons_keep (c : Nat) (X : Text) (h : (!(c == 32 || c == 9 || c == 10 || c == 13 || c == 11 || c == 12)) = true) :
+    compact (c :: X) = c :: compact X := by
+  unfold compact; simp only [List.filter, h]
+
+theorem compact_append (a b : Text) : compact (a ++ b) = compact a ++ compact b := by simp [compact]
+theorem compact_spaces (k : Nat) : compact (List.replicate k 32) = [] := by
+  induction k with
+  | zero => rfl
+  | succ k ih => simp [List.replicate_succ, compact] at ih ⊢
+theorem hasSub_mid (a b : Text) : hasSub [COMMA, QM, COMMA] (a ++ COMMA :: QM :: COMMA :: b) = true := by
+  induction a with
+  | nil => simp [hasSub, startsWith]
+  | cons c a ih => simp only [List.cons_append, hasSub, ih, Bool.or_true]
+
+/-- a row with a missing marker: the line is `P ++ ? :: S`, `P` empty or ending in `,` + blanks, `S` empty or starting with `,` -/
+theorem missing_split (q : Nat) (also : Nat → Bool) (pad : Nat) (toks : List (Bool × Text)) (h : (false, [QM]) ∈ toks) :
+    ∃ P S, arffWriteRow q also pad toks = P ++ QM :: S ∧ (P = [] ∨ ∃ P', P = P' ++ COMMA :: List.replicate pad 32) ∧
+      (S = [] ∨ ∃ S', S = COMMA :: S') := by
+  have htok : arffWriteTok q also (false, [QM]) = [QM] := by
+    have : bareOk [QM] = true := by decide
+    simp [arffWriteTok, this]
+  induction toks with
+  | nil => simp at h
+  | cons x xs ih =>
+    cases xs with
+    | nil =>
+      simp only [List.mem_singleton] at h
+      subst h
+      exact ⟨[], [], by simp [arffWriteRow, htok], Or.inl rfl, Or.inl rfl⟩
+    | cons y ys =>
+      simp only [arffWriteRow]
+      by_cases hx : x = (false, [QM])
+      · subst hx
+        exact ⟨[], _, by rw [htok]; rfl, Or.inl rfl, Or.inr ⟨_, rfl⟩⟩
+      · have hm : (false, [QM]) ∈ y :: ys := by
+          simp only [List.mem_cons] at h ⊢
+          rcases h with h | h
+          · exact absurd h.symm hx
+          · exact h
+        obtain ⟨P1, S1, he, hP, hS⟩ := ih hm
+        refine ⟨arffWriteTok q also x ++ COMMA :: (List.replicate pad 32 ++ P1), S1, by rw [he]; simp, ?_, hS⟩
+        right
+        rcases hP with hP | ⟨P', hP⟩
+        · subst hP; exact ⟨arffWriteTok q also x, by simp⟩
+        · subst hP; exact ⟨arffWriteTok q also x ++ COMMA :: (List.replicate pad 32 ++ P'), by simp⟩
+
+theorem denseMissing_true (line P S : Text) (he : line = P ++ QM :: S)
+    (hP : P = [] ∨ ∃ P' k, P = P' ++ COMMA :: List.replicate k 32) (hS : S = [] ∨ ∃ S', S = COMMA :: S') :
+    denseMissing line = true := by
+  have hcont : line.contains QM = true := by rw [he]; simp
+  have hc : compact line = compact P ++ QM :: compact S := by
+    rw [he, compact_append]
+    have : compact (QM :: S) = QM :: compact S := compact_cons_keep QM S (by decide)
+    rw [this]
+  have hD : (compact line = [QM] || (compact line).take 2 = [QM, COMMA] || hasSub [COMMA, QM, COMMA] (compact line) ||
+      endsWith [COMMA, QM] (compact line)) = true := by
+    rw [hc]
+    have hcomma : ∀ X, compact (COMMA :: X) = COMMA :: compact X := fun X => compact_cons_keep COMMA X (by decide)
+    rcases hP with hP | ⟨P', k, hP⟩ <;> rcases hS with hS | ⟨S', hS⟩ <;> subst hP <;> subst hS
+    · simp [compact]
+    · rw [hcomma]; simp [compact]
+    · rw [compact_append, hcomma, compact_spaces]
+      have : endsWith [COMMA, QM] (compact P' ++ [COMMA] ++ QM :: compact []) = true := by
+        simp [endsWith, startsWith, compact]
+      simp only [List.append_assoc, List.singleton_append] at this
+      simp [this]
+    · rw [compact_append, hcomma, compact_spaces, hcomma]
+      have := hasSub_mid (compact P') (compact S')
+      simp only [List.append_nil, List.append_assoc, List.cons_append, List.nil_append]
+      simp [this]
+  unfold denseMissing
+  simp only [hcont, Bool.not_true, Bool.false_eq_true, if_false]
+  split
+  · rfl
+  · split
+    · rfl
+    · simpa using hD
+
+theorem denseMissing_written (q : Nat) (hq : q = SQ ∨ q = DQ) (also : Nat → Bool) (pad : Nat) (encs : List Enc) (row : List (Bool × CellW))
+    (hc : rowCellsOk encs row = true) :
+    denseMissing (denseRowLine q also pad row) = row.any (·.2.isMissing) := by
+  have hmem := rowCellsOk_mem encs row hc
+  cases hany : row.any (·.2.isMissing) with
+  | true =>
+    obtain ⟨x, hx, hxm⟩ := List.any_eq_true.mp hany
+    obtain ⟨e, he⟩ := hmem x hx
+    have htok : (false, [QM]) ∈ row.map denseTok := by
+      rw [← (cellWOk_facts e x he).1 hxm]; exact List.mem_map_of_mem hx
+    obtain ⟨P, S, hl, hP, hS⟩ := missing_split q also pad _ htok
+    exact denseMissing_true _ P S hl (by
+      rcases hP with h | ⟨P', h⟩
+      · exact Or.inl h
+      · exact Or.inr ⟨P', pad, h⟩) hS
+  | false =>
+    have hno : (denseRowLine q also pad row).contains QM = false := by
+      cases hcq : (denseRowLine q also pad row).contains QM with
+      | false => rfl
+      | true =>
+        exfalso
+        simp only [List.contains_iff_mem] at hcq
+        rcases arffWriteRow_mem q also pad _ QM hcq with h | h | h | h | h
+        · revert h; decide
+        · revert h; decide
+        · revert h; decide
+        · rcases hq with hq | hq <;> rw [hq] at h <;> exact absurd h.1 (by decide)
+        · obtain ⟨t, ht, hqm⟩ := h
+          simp only [List.mem_map] at ht
+          obtain ⟨x, hx, rfl⟩ := ht
+          obtain ⟨e, he⟩ := hmem x hx
+          have hm : x.2.isMissing = false := by
+            have := List.any_eq_false.mp hany x hx
+            simpa using this
+          have := (cellWOk_facts e x he).2 hm
+          have hc2 : x.2.text.contains QM = true := by simpa [denseTok] using hqm
+          rw [this] at hc2; cases hc2
+    unfold denseMissing
+    simp only [hno, Bool.not_false, if_true]
+
+
+
+
+
+theorem attrW_line_facts (isDense : Bool) (q : Nat) (also : Nat → Bool) (a : AttrW) (h : a.ok isDense = true) :
+    lowerAscii ((a.line q also).take 5) = kwAttr ∧ lowerAscii (a.line q also) ≠ kwData := by
+  simp only [AttrW.ok, Bool.and_eq_true, beq_iff_eq] at h
+  have hkw := h.1.1.1.1
+  have hlen : a.kw.length = 10 := by
+    have := congrArg List.length hkw
+    rw [lowerAscii_length] at this
+    rw [this]; rfl
+  have htake : (a.line q also).take 10 = a.kw := by
+    unfold AttrW.line
+    rw [List.take_append_of_le_length (by omega), List.take_of_length_le (by omega)]
+  exact attrLine_facts _ (by rw [htake]; exact hkw)
+
+theorem rowCellsOk_length (encs : List Enc) (row : List (Bool × CellW)) (h : rowCellsOk encs row = true) : row.length = encs.length := by
+  induction encs generalizing row with
+  | nil => cases row with
+    | nil => rfl
+    | cons x xs => simp [rowCellsOk] at h
+  | cons e es ih =>
+    cases row with
+    | nil => simp [rowCellsOk] at h
+    | cons x xs =>
+      simp only [rowCellsOk, Bool.and_eq_true] at h
+      simp [ih xs h.2]
+
+theorem arff_dense_table' (q : Nat) (hq : q = SQ ∨ q = DQ) (also : Nat → Bool) (attrs : List AttrW) (dkw : Text)
+    (rows : List (Nat × List (Bool × CellW)))
+    (hattrs : attrs ≠ []) (hok : ∀ a ∈ attrs, a.ok true = true) (hnd : (attrs.map (·.name.2)).Nodup)
+    (hdkw : lowerAscii dkw = kwData) (hne : rows ≠ [])
+    (hrows : ∀ r ∈ rows, denseRowWOk q also r.1 (attrs.map (·.typ.enc true)) r.2 = true)
+    (hfirst : ∀ r, rows.head? = some r → notBraced (denseRowLine q also r.1 r.2) = true) :
+    arffReadN (attrs.map (·.line q also) ++ dkw :: rows.map (fun r => denseRowLine q also r.1 r.2)) =
+      .ok (.dense (attrs.map (·.name.2))
+        (rows.map fun r => ⟨rowOut (attrs.map (·.typ.enc true)) r.2, r.2.any (·.2.isMissing)⟩)) := by
+  have hp : ∀ l ∈ attrs.map (·.line q also), (fun l => decide (lowerAscii l ≠ kwData)) l = true := by
+    intro l hl
+    simp only [List.mem_map] at hl
+    obtain ⟨a, ha, rfl⟩ := hl
+    simpa using (attrW_line_facts true q also a (hok a ha)).2
+  have hf : (attrs.map (·.line q also)).filter (fun l => decide (lowerAscii (l.take 5) = kwAttr)) = attrs.map (·.line q also) := by
+    rw [List.filter_eq_self]
+    intro l hl
+    simp only [List.mem_map] at hl
+    obtain ⟨a, ha, rfl⟩ := hl
+    simpa using (attrW_line_facts true q also a (hok a ha)).1
+  rw [arffReadN_parts, takeWhile_all_append _ _ _ hp, dropWhile_all_append _ _ _ hp]
+  simp only [List.takeWhile, List.dropWhile, hdkw, ne_eq, not_true_eq_false, decide_false, List.append_nil, List.drop_succ_cons, List.drop_zero, hf]
+  -- the data section
+  cases hrs : rows with
+  | nil => exact absurd hrs hne
+  | cons r0 rest =>
+    rw [← hrs]
+    have hr0 := hrows r0 (by rw [hrs]; simp)
+    simp only [denseRowWOk, Bool.and_eq_true, bne_iff_ne, ne_eq] at hr0
+    have hdata : rows.map (fun r => denseRowLine q also r.1 r.2) = denseRowLine q also r0.1 r0.2 :: rest.map (fun r => denseRowLine q also r.1 r.2) := by
+      rw [hrs]; rfl
+    unfold arffReadParts
+    have hdw : (rows.map (fun r => denseRowLine q also r.1 r.2)).dropWhile (fun l => decide (l.head? = some PCT)) =
+        rows.map (fun r => denseRowLine q also r.1 r.2) := by
+      rw [hdata]; simp [List.dropWhile, hr0.2]
+    rw [hdw]
+    rw [hdata]
+    simp only
+    have hnb := hfirst r0 (by rw [hrs]; rfl)
+    have hdense : (!decide ((denseRowLine q also r0.1 r0.2).head? = some LBRACE) || !decide ((denseRowLine q also r0.1 r0.2).getLast? = some RBRACE)) = true := by
+      unfold notBraced at hnb
+      cases h1 : (denseRowLine q also r0.1 r0.2).head? == some LBRACE <;> cases h2 : (denseRowLine q also r0.1 r0.2).getLast? == some RBRACE <;>
+        simp_all
+    rw [hdense, arffAttrs_written true q hq also attrs [] hok hnd (fun _ _ => by simp)]
+    cases hat : attrs with
+    | nil => exact absurd hat hattrs
+    | cons a0 as =>
+      rw [← hat]
+      have hmapne : attrs.map (fun a => (a.name.2, a.typ.enc true)) = (a0.name.2, a0.typ.enc true) :: as.map (fun a => (a.name.2, a.typ.enc true)) := by
+        rw [hat]; rfl
+      rw [hmapne]
+      simp only [if_true]
+      rw [← hmapne, ← hdata]
+      simp only [List.map_map, List.length_map]
+      -- rows through the line reader
+      let items : List (Text × List Text × List Cell) :=
+        rows.map (fun r => (denseRowLine q also r.1 r.2, r.2.map (·.2.text), rowOut (attrs.map (·.typ.enc true)) r.2))
+      have hlines : items.map (·.1) = rows.map (fun r => denseRowLine q also r.1 r.2) := by simp [items, List.map_map, Function.comp_def]
+      have hAL := arffLines_written q hq also attrs.length (rows.map (fun r => (r.1, r.2.map denseTok))) (by
+        intro r hr
+        simp only [List.mem_map] at hr
+        obtain ⟨r', hr', rfl⟩ := hr
+        have := hrows r' hr'
+        simp only [denseRowWOk, Bool.and_eq_true] at this
+        refine ⟨this.1.2, ?_⟩
+        have := rowCellsOk_length _ _ this.1.1
+        simpa using this) ALR.init (Or.inl rfl)
+      have hDR := denseRows_of_arffLines (attrs.map (·.typ.enc true)) attrs.length items ALR.init (by
+          simp only [items, List.map_map, Function.comp_def] at hAL ⊢
+          simpa [denseRowLine, denseTok, List.map_map, Function.comp_def] using hAL) (by
+          intro it hit
+          simp only [items, List.mem_map] at hit
+          obtain ⟨r, hr, rfl⟩ := hit
+          have := hrows r hr
+          simp only [denseRowWOk, Bool.and_eq_true, bne_iff_ne, ne_eq] at this
+          exact this.2) (by
+          intro it hit
+          simp only [items, List.mem_map] at hit
+          obtain ⟨r, hr, rfl⟩ := hit
+          have := hrows r hr
+          simp only [denseRowWOk, Bool.and_eq_true] at this
+          exact encodeRow_written _ _ this.1.1)
+      rw [hlines] at hDR
+      have htoF : toF ALR.init = ALRF.init := rfl
+      rw [htoF] at hDR
+      have hencs : (List.map (Prod.snd ∘ fun a => (a.name.2, a.typ.enc true)) attrs) = attrs.map (·.typ.enc true) := by
+        simp [Function.comp_def]
+      have hnames : (List.map (Prod.fst ∘ fun a => (a.name.2, a.typ.enc true)) attrs) = attrs.map (·.name.2) := by
+        simp [Function.comp_def]
+      rw [hencs, hnames, hDR]
+      simp only [items, List.map_map, Function.comp_def]
+      congr 2
+      apply List.map_congr_left
+      intro r hr
+      have := hrows r hr
+      simp only [denseRowWOk, Bool.and_eq_true] at this
+      rw [denseMissing_written q hq also r.1 _ r.2 this.1.1]
+
+
+
+/-! ## E. header-skipping decompressor, reader objects -/
+
+theorem drop_append' {α} (k : Nat) (a b : List α) : (a ++ b).drop k = a.drop k ++ b.drop (k - a.length) := by
+  induction a generalizing k with
+  | nil => simp
+  | cons x a ih =>
+    cases k with
+    | zero => simp
+    | succ k => simp [ih k]
+
+theorem skip_lawful' (n : Nat) : (Decomp.skip n).Lawful := by
+  refine ⟨fun s => by simp [Decomp.skip], fun s a b => ?_⟩
+  simp only [Decomp.skip, List.length_append, drop_append']
+  rw [Nat.sub_add_eq]
+
+theorem flatten_filter_ne_nil {α} (cs : List (List α)) : (cs.filter (· ≠ [])).flatten = cs.flatten := by
+  induction cs with
+  | nil => rfl
+  | cons c cs ih =>
+    by_cases hc : c = []
+    · subst hc; simpa using ih
+    · have : (c :: cs).filter (· ≠ []) = c :: cs.filter (· ≠ []) := by simp [hc]
+      rw [this, List.flatten_cons, List.flatten_cons, ih]
+
+theorem readerRun_frame' (r : ReaderKind) (hist : List (List Text × Bool)) :
+    readerRun r hist = hist.map (fun i => if i.2 then none else some (readerParse r i.1)) := by
+  induction hist with
+  | nil => rfl
+  | cons i is ih => simp only [readerRun, readerStep, List.map_cons, ih]
+
 end Coba.C12
